@@ -46,7 +46,6 @@ def outJson : Outcome → Json
   | .notFound => Json.mkObj [("out", "notfound")]
   | .redirect => Json.mkObj [("out", "redirect")]
   | .isADirectory p => Json.mkObj [("out", "isdir"), ("path", cod p)]
-  | .valueError => Json.mkObj [("out", "valueerror")]
   | .file p e v => Json.mkObj [("out", "file"), ("path", cod p),
       ("enc", match e with | some s => Json.str s | none => Json.null), ("vary", toJson v)]
 
